@@ -12,7 +12,7 @@ func TestRespellKeepsMeaning(t *testing.T) {
 	if err := json.Unmarshal([]byte(in), &want); err != nil {
 		t.Fatal(err)
 	}
-	for m := 0; m <= 4; m++ {
+	for m := 0; m <= 5; m++ {
 		out := Respell(in, m)
 		var got any
 		if err := json.Unmarshal([]byte(out), &got); err != nil {
